@@ -241,7 +241,10 @@ def case(chk, i):
                 rcr, sor, ser, _ = sh(["rustc", "--edition", "2021", "--crate-type", "lib", "--emit=metadata", "-o", os.path.join(d, "wnodef.rmeta"), w], timeout=120)
                 msgs = re.findall(r"^error(?:\[E\d+\])?: ([^\n]*)", ser, re.M)
                 missing = set(re.findall(r"cannot find type `(\w+)`", ser))
-                other = [m for m in msgs if "cannot find type" not in m and "aborting due to" not in m and "cannot find struct" not in m]
+                # `pub use self::E as T;` (typedef of a blocklisted enum) reports the missing name as an unresolved import
+                missing |= set(re.findall(r"unresolved import `self::(\w+)`", ser))
+                other = [m for m in msgs if "cannot find type" not in m and "aborting due to" not in m and "cannot find struct" not in m
+                         and not re.match(r"unresolved import `self::\w+`", m)]
                 obs2 = {"undefined_name_runs": 1}
                 used = {bn for bn in bnames if re.search(r"\b%s\b" % re.escape(bn), open(b2).read())}
                 if rcr == 0 and used:
@@ -367,8 +370,35 @@ def cxx_case(chk, i):
                "cxx_selection_hits_base": int(any(c in [x.name for x in used_as_base] for c in chosen)),
                "cxx_selection_hits_virtual_class": int(any(g.by_name(c).attrs.get("virtual") for c in chosen))}
         problems = []
+        sig = None
         if new:
             problems.append("layout assertions that hold without the selection fail with --opaque-type %s: %s" % (chosen, new[:6]))
+            # recorded finding: an opaque class that only INHERITS its vtable is not known to have one (opaque types do not trace their
+            # bases: the C07 finding), so a derived class that declares a virtual method gets a second vtable pointer
+            def ancestors_virtual(c):
+                return any(g.by_name(b_).attrs.get("virtual") or ancestors_virtual(g.by_name(b_)) for b_ in c.bases)
+            def explains(tn):
+                dcls = g.by_name(tn)
+                if dcls is None or not dcls.attrs.get("virtual"):
+                    return False
+                def reaches(c):
+                    for b_ in c.bases:
+                        bc = g.by_name(b_)
+                        if b_ in chosen and not bc.attrs.get("virtual") and ancestors_virtual(bc):
+                            return True
+                    return False
+                return reaches(dcls)
+            def owner(a):
+                return a.split(" of ", 1)[1].split("::")[0].replace("field: ", "").strip() if " of " in a else a
+            owners = set(owner(a) for a in new)
+            # classes containing such a class by value / deriving from it inherit the wrong size
+            def tainted(tn, depth=0):
+                c = g.by_name(tn)
+                if c is None or depth > 6:
+                    return False
+                return explains(tn) or any(tainted(x, depth + 1) for x in (set(c.bases) | set(c.needs_complete)) if x != tn)
+            if owners and all(tainted(o_) for o_ in owners):
+                sig = "c10.opaque-base-with-inherited-vtable"
         inv = htypes.inventory(b1)
         if "error" not in inv:
             for it in inv["items"]:
@@ -377,7 +407,7 @@ def cxx_case(chk, i):
                     if bad:
                         problems.append("opaque class %s exposes fields %s" % (it["name"], bad))
         if problems:
-            out.append(Verdict(VIOLATED, cname, "\n".join(problems), files=files, obs=obs))
+            out.append(Verdict(VIOLATED, cname, "\n".join(problems), files=files, obs=obs, signature=sig))
             continue
         other1 = [m for m in re.findall(r"^error(?:\[E\d+\])?: ([^\n]*)", r1[1], re.M) if "aborting" not in m and "evaluation" not in m and "index out of bounds" not in m
                   and "attempt to compute" not in m]
